@@ -9,11 +9,21 @@ NOTE = ("RemoteSend (helper builds the message, chain delivers it) model-checked
         "each built body is delivered to the target's real entry point (queries through a recording mock querier) and the flight is validated; "
         "the builders as a state machine (Builder.tla: every setter sequence up to the bound, invariant C10_BuiltFromLastSet), and every such "
         "sequence replayed call by call on the real ExecutorBuilder / InstantiateBuilder of the shared-family programs "
-        "(BuilderNew / BuilderSet / BuilderBuild events stepped through the same operators)")
+        "(BuilderNew / BuilderSet / BuilderBuild events stepped through the same operators); on the chain corpus the message every caller wraps "
+        "for the target contract is built by the target's generated executor helper and every reply method asks the target through its "
+        "generated querier helper inside the running transaction")
 
 
 def run(prop, tier, seed, replay):
     m = tlc_model("MC_Builder", "MC_Builder_%s.cfg" % tier, workers=2, timeout=600, expect=['"BUILDER-RUNS"'], coverage=True)
     if m["never_taken"]:
         raise ToolError("vacuous builder model: %s" % m["never_taken"])
-    return routing.run_property(prop, tier, seed, NOTE)
+    # the helpers at work inside contracts on a chain (Chain.tla): the caller wraps a message built by the target's generated executor
+    # helper, its reply methods ask the target through its generated querier helper inside the running transaction
+    from . import replies
+
+    def extra(rep):
+        p = replies.pipeline(tier, seed)
+        cv = replies.validate_chain(prop, p, rep)
+        return {"chain_trace_events_judged": cv["events"]}
+    return routing.run_property(prop, tier, seed, NOTE, extra=extra)
